@@ -270,7 +270,7 @@ def ladder_check(ctx, rule, modname, mode):
     m = ctx.model
     F = 'hszinc/%s.py' % modname
     try:
-        fn = m.func(modname, 'dump_scalar')
+        fn = m.func(modname, 'dump_scalar', 'nested')
     except AnalysisError as e:
         ctx.error(rule, str(e))
         return {}
